@@ -2,11 +2,43 @@
 from common import SAN_BASE
 
 PROP = dict(
-        technique="runtime monitoring: ASan/UBSan/LSan build + structural invariant walker, membership model and release witnesses after every node operation",
-        level_text="(draft)",
-        level_note="(draft)",
-        legs=[dict(name="c14_node", src=["c14_node.c"], libs=["mptcore"], batch=256, lsan=True,
-                   floors={})],
-        rule="(draft)",
-        assumptions=SAN_BASE,
+        technique=("runtime monitoring: ASan/UBSan/LSan build + structural invariant walker, list-membership model, "
+                   "release witnesses (harness metatype unref, ASan poison query) and recursive clone comparison after every node operation"),
+        level_text=("Monitored executions of the real node code: 200k (quick) / 3M (thorough) random histories of 15..70 (110) operations over a "
+                    "population of at most 24 harness nodes (plus nodes made by the parser) with names from 5 strings incl. the empty and an "
+                    "out-of-line one.  After every operation the whole population is walked (every link NULL or a live node, each node reached "
+                    "exactly once from the list heads, prev/parent agree with the way of reaching, children pointer is a list head), parent and "
+                    "list membership are compared with a set model, destroyed subtrees must have released every value exactly once and freed the "
+                    "node, clones are compared recursively (name, value bytes, child order, parent links) incl. refused value clones.  "
+                    "Exploration, not proof; positions inside a list are adopted from the library, not asserted."),
+        level_note=("trusts the walker/membership model in harness/c14_node.c, gcc ASan/UBSan/LSan (LSan is only the secondary release oracle); "
+                    "merge semantics of mpt_node_move/mpt_parse_node (which nodes move) are adopted, only structure, conservation and release are asserted"),
+        legs=[dict(name="c14_node", src=["c14_node.c"], libs=["mptcore"], batch=512, lsan=True,
+                   floors={"mpt_gnode_add": 20000, "mpt_node_add": 20000, "mpt_gnode_insert": 20000, "mpt_node_insert": 20000,
+                           "mpt_gnode_after": 10000, "mpt_gnode_before": 10000, "mpt_node_unlink": 10000,
+                           "mpt_node_destroy": 10000, "mpt_node_clear": 5000, "mpt_node_move": 20000,
+                           "mpt_gnode_swap": 5000, "mpt_gnode_switch": 10000, "mpt_gnode_relink": 5000,
+                           "mpt_gnode_relink:manual": 5000, "mpt_node_clone": 5000, "mpt_list_clone": 10000,
+                           "mpt_tree_clone": 10000, "mpt_parse_node": 5000, "mpt_gnode_traverse": 10000,
+                           "mpt_node_locate": 5000, "mpt_node_find": 5000, "mpt_node_next": 5000, "mpt_gnode_pos": 3000,
+                           "state:clone-depth2": 5000, "state:move-merge-children": 1000, "state:move-reparent-children": 2000,
+                           "state:switch-adjacent": 1000, "state:switch-different-parents": 5000,
+                           "state:parse-merge": 3000, "state:relink-manual-depth2": 3000, "state:destroy-with-subtree": 1000,
+                           "outcome:destroy-refused": 5000, "outcome:clone-refused-clean": 3000,
+                           "monitor:structure-walks": 1000000, "monitor:membership-compares": 1000000,
+                           "monitor:release-witnessed": 200000, "monitor:clone-node-compares": 100000,
+                           "monitor:final-release-audits": 100000, "history:reached-depth2": 50000})],
+        rule=("case = one PRNG history: 2..6 initial nodes, then 15..70 (thorough: 110) operations drawn from node_new, gnode_after/before, "
+              "gnode_add/node_add (positions 0, +-1..3, +-5, +-100), gnode_insert/node_insert, node_unlink, node_destroy (linked and unlinked), "
+              "node_clear, node_clone/list_clone/tree_clone (1 in 6 with a value that refuses to be cloned), node_move between disjoint lists "
+              "(top-level handle or &parent->children), gnode_swap, gnode_switch, gnode_relink (consistent tree / after manual concatenation), "
+              "node_locate/next/find, gnode_pos, gnode_traverse (4 orders x leaf masks, optional stop), parse_node into a node with or without "
+              "children; every node is destroyed at the end and every value must then have exactly one release.  non-trivial = the forest reached "
+              "depth >= 2, >= 8 structure-changing operations were executed and at least one of {clone of depth >= 2, move that merges or "
+              "re-parents children, parse_node merge into existing children} happened; distinct = 64-bit hash of the operation list with arguments"),
+        assumptions=SAN_BASE + ["admissible caller: a node handed to after/before/add/insert is unlinked and is not an ancestor of the position; "
+                                "swap/switch operands are not ancestor and descendant; move source and target lists are disjoint; "
+                                "the `first` argument of gnode_add/node_add is the list head (a later member only with position 0, as mpt_node_move itself does)",
+                                "lookup/traversal results are computed from the documented semantics over the actual list order",
+                                "harness metatype (convert/unref/addref/clone) as release and clone witness"],
     )
